@@ -38,6 +38,7 @@ structure GT where
   ids : List IdGT
   subs : List SubGT
   mutated : Option (String × String × Bytes)    -- (owner, region kind, user ID after the flip if the region is a user ID)
+  alt : Option (Bytes × Bytes × Bytes) := none  -- (usage, created, expires) of another, untouched self-signature of the same identity
 
 def keyGT : P KeyGT := do
   let fp ← tok; let kid ← tok; let alg ← hexTok; let size ← tok; let curve ← hexTok
@@ -66,7 +67,12 @@ def parseGT : P GT := do
     | "M" :: owner :: kind :: mn :: _ => some (owner, kind, (bytesOfHexStr mn).getD [])
     | "M" :: owner :: kind :: _ => some (owner, kind, [])
     | _ => none
-  pure { primary := primary, ids := ids, subs := subs, mutated := mutated }
+  -- ALT <usage> <created> <expires>: the identity carries another, untouched self-signature that stands for these values
+  let alt := match rest with
+    | "M" :: _ :: _ :: _ :: "ALT" :: u :: c :: e :: _ =>
+      some ((if u == "-" then [] else (bytesOfHexStr u).getD []), (bytesOfHexStr c).getD [], (bytesOfHexStr e).getD [])
+    | _ => none
+  pure { primary := primary, ids := ids, subs := subs, mutated := mutated, alt := alt }
 
 def val (as : List Attr) (n : String) : List Bytes := (as.filter fun a => a.name = strBytes n).map (·.value)
 
@@ -122,7 +128,17 @@ def holdsMutated (g : GT) (owner : String) (mutName : Bytes) (impl : Option Info
       (if i.children.isEmpty then "holds" else "FAILS bound_only: identities/subkeys are listed although the primary key material was altered")
     else if owner.startsWith "id" then
       match (owner.drop 2).toNat? >>= fun k => g.ids[k]? with
-      | some ig => if i.children.any (fun c => c.desc = ig.name ∨ (¬ mutName.isEmpty ∧ c.desc = mutName)) then "FAILS bound_only: an identity whose signed data or signature was altered is still listed" else "holds"
+      | some ig =>
+        match i.children.filter (fun c => c.desc = ig.name ∨ (¬ mutName.isEmpty ∧ c.desc = mutName)) with
+        | [] => "holds"
+        | kids =>
+          -- still listed: only acceptable when ANOTHER, untouched self-signature binds it, and then with that one's data
+          match g.alt with
+          | some (u, c, e) =>
+            if kids.all (fun k => val k.attrs "Usage" = (if u.isEmpty then [] else [u]) ∧ val k.attrs "Created" = [c] ∧ val k.attrs "Expires" = [e])
+            then "holds (bound by the other, untouched self-signature)"
+            else "FAILS bound_only: an identity is listed with usage/dates taken from a self-signature that was altered (not from the untouched one that binds it)"
+          | none => "FAILS bound_only: an identity whose signed data or signature was altered is still listed"
       | none => "FAILS oracle record"
     else
       match (owner.drop 3).toNat? >>= fun k => g.subs[k]? with
